@@ -714,7 +714,24 @@ func (c *Client) processPubrel(id packet.ID) error {
 	// get packet from store
 	publish, ok := pkt.(*packet.Publish)
 	if !ok {
-		return nil // ignore a wrongly sent Pubrel packet
+		// ignore a Pubrel packet with an invalid packet id
+		if !id.Valid() {
+			return nil
+		}
+
+		// acknowledge a Pubrel packet for an unknown packet id as the message
+		// has already been released and the sender must be able to complete
+		// the flow
+		pubcomp := packet.NewPubcomp()
+		pubcomp.ID = id
+
+		// acknowledge Pubrel packet
+		err = c.send(pubcomp, true)
+		if err != nil {
+			return c.die(err, false)
+		}
+
+		return nil
 	}
 
 	// call callback
@@ -723,6 +740,14 @@ func (c *Client) processPubrel(id packet.ID) error {
 		if err != nil {
 			return c.die(err, true)
 		}
+	}
+
+	// remove packet from store before it is acknowledged, otherwise a
+	// retransmitted Pubrel packet would deliver the message again if the
+	// Pubcomp packet cannot be sent
+	err = c.Session.DeletePacket(session.Incoming, id)
+	if err != nil {
+		return c.die(err, true)
 	}
 
 	// prepare pubcomp packet
